@@ -339,11 +339,12 @@ fn cross_shard(_env: &Env, src: &mut Src<'_>) -> CaseResult {
         }
         Ok(())
     }
-    let shards = src.pick(&[2usize, 3, 5]);
+    let shards = src.pick(&[1usize, 2, 3, 5]);
     let seed = src.seed();
     let idx = gen_index(src);
     block_on(async {
         match shards {
+            1 => go::<1>(seed, idx),
             2 => go::<2>(seed, idx),
             3 => go::<3>(seed, idx),
             _ => go::<5>(seed, idx),
@@ -392,7 +393,7 @@ pub fn subs(_env: &Env) -> Vec<Sub> {
         Sub::exhaustive("api_misuse", 6, 6, api_misuse,
             "offset cap inclusive / beyond; the same (step, index) twice panics; sequential after indexed and sequential twice panic; indexed twice works; sequential streams of neighbours agree"),
         Sub::random("cross_shard", 16, 300, 10_000, cross_shard,
-            "TestWorld with 2, 3, 5 shards: cross-shard randomness identical on all shards of a helper, matches the neighbour helper's shards, differs from per-shard PRSS, per-shard PRSS differs between shards and still matches neighbours"),
+            "TestWorld with 1, 2, 3, 5 shards (a single shard per helper included): cross-shard randomness identical on all shards of a helper, matches the neighbour helper's shards, differs from per-shard PRSS, per-shard PRSS differs between shards and still matches neighbours"),
         Sub::random("sweep", 4100, 400, 12_000, sweep,
             "executions from the generators of C01 (whole hybrid query, all configurations), C03 (DZKP batches of many sizes, validate_record batching), C04 (MAC validation batches, totals 1..40 x active 2..16), C05 (shuffles): the debug-build detector must never report `Generated randomness for index ... twice`; non-trivial as in the source property")
         .shrink_iters(10),
